@@ -110,6 +110,25 @@ impl From<Error> for PError { #[verifier::external_body] fn from(e: Error) -> (r
 /// `impl<T> From<T> for T` is the identity (std)
 pub assume_specification<T>[<T as From<T>>::from](t: T) -> (r: T) ensures r == t;
 
+// ------------------------------------------------------------------ std functions without a vstd specification
+// Sound but partial contracts (everything stated is true of std; not everything true is stated). They exist so that
+// code using these functions is *analysed* instead of being rejected as unsupported.
+pub assume_specification [u32::ilog2] (v: u32) -> (r: u32)
+    requires v > 0
+    ensures r <= 31, vstd::arithmetic::power2::pow2(r as nat) <= v, (v as int) < vstd::arithmetic::power2::pow2((r + 1) as nat);
+/// in-place list surgery: the result is never longer and contains only elements that were there before
+pub open spec fn from_old<T>(new: Seq<T>, old: Seq<T>) -> bool {
+    new.len() <= old.len() && forall |i: int| 0 <= i < new.len() ==> old.contains(#[trigger] new[i])
+}
+pub assume_specification<T, A, F> [std::vec::Vec::<T, A>::dedup_by] (v: &mut std::vec::Vec<T, A>, f: F)
+    where A: std::alloc::Allocator, F: std::ops::FnMut(&mut T, &mut T) -> bool
+    ensures from_old(final(v)@, old(v)@), old(v)@.len() > 0 ==> final(v)@.len() > 0 && final(v)@[0] == old(v)@[0];
+pub assume_specification<T, A, F, K> [std::vec::Vec::<T, A>::dedup_by_key] (v: &mut std::vec::Vec<T, A>, f: F)
+    where A: std::alloc::Allocator, F: std::ops::FnMut(&mut T) -> K, K: PartialEq
+    ensures from_old(final(v)@, old(v)@);
+pub assume_specification<T> [<[T]>::reverse] (v: &mut [T])
+    ensures final(v)@.len() == old(v)@.len(), forall |i: int| 0 <= i < old(v)@.len() ==> final(v)@[i] == old(v)@[old(v)@.len() - 1 - i];
+
 // ------------------------------------------------------------------ adapters as oracles
 // Each adapter call is a deterministic uninterpreted function of its arguments. Nothing is lost for
 // safety properties: the postconditions hold for every such function, i.e. for every adapter behaviour.
